@@ -30,6 +30,12 @@ import TypedpyModel.Sem.PyLex
 namespace Typedpy.PyGram
 open Typedpy.PyLex
 
+open Lean in
+/-- `chars!"abc"` = `['a', 'b', 'c']` (an explicit list literal: reduces without evaluating `String.toList`) -/
+macro:max "chars!" s:str : term => do
+  let elems := s.getString.toList.map fun c => Syntax.mkCharLit c
+  `([$(elems.toArray),*])
+
 inductive Verdict where
   | accept | reject | unknown
 deriving Repr, DecidableEq, Inhabited
@@ -65,16 +71,16 @@ def idStart (X : Ora) (c : Char) : Bool := if c.toNat < 128 then idStartA c else
 def idCont (X : Ora) (c : Char) : Bool := if c.toNat < 128 then idContA c else X.xc c
 
 def keywords : List (List Char) :=
-  ["False", "None", "True", "and", "as", "assert", "async", "await", "break", "class", "continue",
-   "def", "del", "elif", "else", "except", "finally", "for", "from", "global", "if", "import", "in",
-   "is", "lambda", "nonlocal", "not", "or", "pass", "raise", "return", "try", "while", "with",
-   "yield"].map String.toList
+  [chars!"False", chars!"None", chars!"True", chars!"and", chars!"as", chars!"assert", chars!"async", chars!"await", chars!"break", chars!"class", chars!"continue",
+   chars!"def", chars!"del", chars!"elif", chars!"else", chars!"except", chars!"finally", chars!"for", chars!"from", chars!"global", chars!"if", chars!"import", chars!"in",
+   chars!"is", chars!"lambda", chars!"nonlocal", chars!"not", chars!"or", chars!"pass", chars!"raise", chars!"return", chars!"try", chars!"while", chars!"with",
+   chars!"yield"]
 
 def identTok (w : List Char) : Tok := if keywords.contains w then .kw w else .name w
 
 def lower (c : Char) : Char := if 65 ≤ c.toNat ∧ c.toNat ≤ 90 then Char.ofNat (c.toNat + 32) else c
 /-- string prefixes (`r'..'`, `b".."`, `f'..'`, …), case-insensitive -/
-def strPrefixes : List (List Char) := ["r", "u", "b", "f", "br", "rb", "fr", "rf"].map String.toList
+def strPrefixes : List (List Char) := [chars!"r", chars!"u", chars!"b", chars!"f", chars!"br", chars!"rb", chars!"fr", chars!"rf"]
 def isStrPrefix (w : List Char) : Bool := strPrefixes.contains (w.map lower)
 
 /-! ### lexer -/
@@ -328,12 +334,12 @@ inductive PStep where
 def pstate0 : PState := { stack := [], ex := .stmtStart, phase := .expr, needIndent := false }
 
 /-- names that cannot be assigned / used as keyword-argument names -/
-def forbiddenTarget (n : List Char) : Bool := n == "__debug__".toList
+def forbiddenTarget (n : List Char) : Bool := n == chars!"__debug__"
 /-- soft keywords that start a statement of their own when followed by a name -/
 def softKw (n : List Char) : Bool :=
-  n == "match".toList || n == "case".toList || n == "type".toList
+  n == chars!"match" || n == chars!"case" || n == chars!"type"
 
-def constKw (w : List Char) : Bool := w == "True".toList || w == "False".toList || w == "None".toList
+def constKw (w : List Char) : Bool := w == chars!"True" || w == chars!"False" || w == chars!"None"
 
 def closes (c : Char) (f : Frame) : Bool :=
   match f with
@@ -362,7 +368,7 @@ def seenKw (s : PState) : Bool :=
 def startsPositional (t : Tok) : Bool :=
   match t with
   | .num | .str => true
-  | .kw w => constKw w || w == "lambda".toList
+  | .kw w => constKw w || w == chars!"lambda"
   | .op c => c == '-' || c == '[' || c == '{'
   | _ => false
 
@@ -377,7 +383,7 @@ def operandStep (s : PState) (closeOk argStart : Bool) (t : Tok) : PStep :=
   | .str => .go { s with ex := .afterOp true }
   | .kw w =>
     if constKw w then .go { s with ex := .afterOp false }
-    else if w == "lambda".toList then .go { s with ex := .lamColon }
+    else if w == chars!"lambda" then .go { s with ex := .lamColon }
     else .stop .unknown
   | .op c =>
     if c = '-' then .go { s with ex := .operand false false }
@@ -395,7 +401,7 @@ def afterStep (s : PState) (isStr : Bool) (t : Tok) : PStep :=
   match t with
   | .str => if isStr then .go { s with ex := .afterOp true } else .stop .reject
   | .name _ | .num => .stop .reject
-  | .kw w => if constKw w ∨ w == "lambda".toList then .stop .reject else .stop .unknown
+  | .kw w => if constKw w ∨ w == chars!"lambda" then .stop .reject else .stop .unknown
   | .newline =>
     (match s.stack with
      | [] => .go { s with ex := .stmtStart, phase := .expr }
@@ -451,9 +457,9 @@ def pstep (s : PState) (t : Tok) : PStep :=
       | .newline => .stop .reject
       | .name n => .go { s with ex := .stmtName n }
       | .kw w =>
-        if w == "class".toList then .go { s with ex := .cls1 }
-        else if w == "pass".toList then .go { s with ex := .lineEnd }
-        else if w == "from".toList then .go { s with ex := .from1 }
+        if w == chars!"class" then .go { s with ex := .cls1 }
+        else if w == chars!"pass" then .go { s with ex := .lineEnd }
+        else if w == chars!"from" then .go { s with ex := .from1 }
         else operandStep { s with phase := .expr } false false t
       | _ => operandStep { s with phase := .expr } false false t
   | .stmtName n =>
@@ -490,7 +496,7 @@ def pstep (s : PState) (t : Tok) : PStep :=
     (match t with
      | .name _ => .go { s with ex := .from2 }
      | _ => .stop .unknown)
-  | .from2 => if t = .kw "import".toList then .go { s with ex := .from3 } else .stop .unknown
+  | .from2 => if t = .kw (chars!"import") then .go { s with ex := .from3 } else .stop .unknown
   | .from3 => if isOp t '*' then .go { s with ex := .lineEnd } else .stop .unknown
   | .lineEnd =>
     if t = .newline then .go { s with ex := .stmtStart, phase := .expr } else .stop .unknown
